@@ -8,7 +8,7 @@ import FsModel.Ref
 import FsProofs.Lemmas.TreeLemmas
 
 namespace Fs.C05
-open Fs Fs.Ref
+open Fs Fs.Ref Fs.TreeLemmas
 
 /-- `a` is a component prefix of `q` -/
 abbrev under (a q : List Name) : Prop := a <+: q
@@ -27,17 +27,43 @@ def touched (op : Op) (q : List Name) : Prop :=
   | .makedirs p _ => ∃ a, validate p = .ok a ∧ under q a
   | _ => False
 
+theorem touched_of_touch1 {op : Op} {p : Str} {cs q : List Name} (hp : op.paths = [p])
+    (hv : validate p = .ok cs) (ht : touch1 op cs q) : touched op q := by
+  cases op <;> simp only [touch1] at ht <;> simp only [Op.paths, List.cons.injEq, and_true] at hp <;>
+    subst hp <;> exact ⟨cs, hv, ht⟩
+
+theorem touched_of_touch2 {op : Op} {p p' : Str} {a b q : List Name} (hp : op.paths = [p, p'])
+    (ha : validate p = .ok a) (hb : validate p' = .ok b) (ht : touch2 op a b q) : touched op q := by
+  cases op <;> simp only [touch2] at ht <;> simp only [Op.paths, List.cons.injEq, and_true] at hp <;>
+    obtain ⟨rfl, rfl⟩ := hp
+  · exact ⟨a, b, ha, hb, ht⟩
+  · exact ⟨b, hb, ht⟩
+  · exact ⟨a, b, ha, hb, ht⟩
+  · exact ⟨b, hb, ht⟩
+
 /-- FRAME: every pre-existing file the call was not asked to touch is still there with its
 original bytes after the call — whether the call returned or raised. -/
 theorem frame_files (s : State) (op : Op) (q : List Name) (b : Bytes)
     (hq : s.root.get q = some (.file b)) (hn : ¬ touched op q) :
     (step s op).1.root.get q = some (.file b) := by
-  sorry
+  cases step_case s op with
+  | close _ h => rw [h]; exact hq
+  | fail e _ h => rw [h]; exact hq
+  | one p cs _ hp hv h =>
+    rw [h]
+    exact eff1_frame (eff1 s cs op) q b hq (fun ht => hn (touched_of_touch1 hp hv ht))
+  | two p p' a b' _ hp ha hb h =>
+    rw [h]
+    exact eff2_frame (eff2 s a b' op) q b hq (fun ht => hn (touched_of_touch2 hp ha hb ht))
 
 /-- a failed call changes nothing at all -/
 theorem failed_call_changes_nothing (s : State) (op : Op) (e : Err)
     (h : (step s op).2 = .err e) : (step s op).1 = s := by
-  sorry
+  cases step_case s op with
+  | close _ h' => rw [h'] at h; cases h
+  | fail e' _ h' => rw [h']
+  | one p cs _ _ _ h' => rw [h'] at h ⊢; exact eff1_err (eff1 s cs op) e h
+  | two p p' a b _ _ _ _ h' => rw [h'] at h ⊢; exact eff2_err (eff2 s a b op) e h
 
 /-- after a successful move the source content is at the destination and the source is gone -/
 theorem move_post (st : State) (s d : Str) (ow : Bool) (a b : List Name) (v : Val)
@@ -46,12 +72,38 @@ theorem move_post (st : State) (s d : Str) (ow : Bool) (a b : List Name) (v : Va
     (step st (.move s d ow)).1.root.get b = st.root.get a ∧
     (step st (.move s d ow)).1.root.get a = none ∧
     ∃ data, st.root.get a = some (.file data) := by
-  sorry
+  have hs := step_two_ok (op := .move s d ow) rfl ha hb hok
+  rw [hs] at hok ⊢
+  have h2 := eff2 st a b (.move s d ow)
+  generalize step2 st a b (.move s d ow) = r at h2 hok
+  cases h2 with
+  | fail e => cases hok
+  | noop v' h => exact absurd (h ⟨_, _, _, Or.inl rfl⟩) hne
+  | move data ps ha' hab hbne hp hnd _ =>
+    simp only [upd]
+    have h1 : ¬ b <+: a := not_prefix_of_not_dir ha' hne hnd
+    have h2 := get_set_file b a st.root (.file data) data ha' h1
+    have h3 := get_set_same b st.root (.file data) ps hbne hp
+    have h4 : ¬ a <+: b := not_prefix_of_not_dir h3 (Ne.symm hne) (by simp [h2])
+    have hane : a ≠ [] := by intro e; subst e; exact h4 List.nil_prefix
+    have hwf' := set_wf b st.root (.file data) (validate_clean d b hb) rfl hwf
+    refine ⟨?_, ?_, data, ha'⟩
+    · rw [ha']; exact get_del_file _ _ _ _ h3 h4
+    · simpa using get_del_append a [] _ hane hwf'
+  | copy _ _ _ _ _ _ _ hop => obtain ⟨_, _, _, h⟩ := hop; cases h
+  | movedirMerge _ _ _ _ _ _ _ _ _ _ hop => obtain ⟨_, _, _, h⟩ := hop; cases h
+  | movedirNew _ _ _ _ _ _ _ hop => obtain ⟨_, _, _, h⟩ := hop; cases h
+  | copydirMerge _ _ _ _ _ _ _ hop => obtain ⟨_, _, _, h⟩ := hop; cases h
+  | copydirNew _ _ _ _ _ hop => obtain ⟨_, _, _, h⟩ := hop; cases h
 
 theorem move_same_path_noop (st : State) (s d : Str) (a : List Name) (v : Val)
     (ha : validate s = .ok a) (hb : validate d = .ok a)
     (hok : (step st (.move s d true)).2 = .ok v) : (step st (.move s d true)).1 = st := by
-  sorry
+  have hs := step_two_ok (op := .move s d true) rfl ha hb hok
+  rw [hs]
+  cases hg : st.root.get a with
+  | none => simp [step2, hg, Ref.fail]
+  | some n => cases n <;> simp [step2, hg, Ref.fail, done]
 
 /-- after a successful copy the destination holds the source bytes and the source is intact -/
 theorem copy_post (st : State) (s d : Str) (ow : Bool) (a b : List Name) (v : Val)
@@ -60,25 +112,60 @@ theorem copy_post (st : State) (s d : Str) (ow : Bool) (a b : List Name) (v : Va
     ∃ data, st.root.get a = some (.file data) ∧
       (step st (.copy s d ow)).1.root.get b = some (.file data) ∧
       (step st (.copy s d ow)).1.root.get a = some (.file data) := by
-  sorry
+  have hs := step_two_ok (op := .copy s d ow) rfl ha hb hok
+  rw [hs] at hok ⊢
+  have hne : a ≠ b := by
+    intro e; subst e
+    simp only [step2] at hok
+    split at hok
+    · cases hok
+    · simp [Ref.fail] at hok
+  have h2 := eff2 st a b (.copy s d ow)
+  generalize step2 st a b (.copy s d ow) = r at h2 hok
+  cases h2 with
+  | fail e => cases hok
+  | noop v' h => exact absurd (h ⟨_, _, _, Or.inr (Or.inl rfl)⟩) hne
+  | copy data ps ha' hab hbne hp hnd _ =>
+    simp only [upd]
+    have _ := hwf
+    have h1 : ¬ b <+: a := not_prefix_of_not_dir ha' hne hnd
+    exact ⟨data, ha', get_set_same b st.root (.file data) ps hbne hp,
+      get_set_file b a st.root (.file data) data ha' h1⟩
+  | move _ _ _ _ _ _ _ hop => obtain ⟨_, _, _, h⟩ := hop; cases h
+  | movedirMerge _ _ _ _ _ _ _ _ _ _ hop => obtain ⟨_, _, _, h⟩ := hop; cases h
+  | movedirNew _ _ _ _ _ _ _ hop => obtain ⟨_, _, _, h⟩ := hop; cases h
+  | copydirMerge _ _ _ _ _ _ _ hop => obtain ⟨_, _, _, h⟩ := hop; cases h
+  | copydirNew _ _ _ _ _ hop => obtain ⟨_, _, _, h⟩ := hop; cases h
 
 /-- copying a file onto itself is always rejected -/
 theorem copy_onto_itself_rejected (st : State) (s d : Str) (ow : Bool) (a : List Name)
     (hc : st.closed = false) (ha : validate s = .ok a) (hb : validate d = .ok a) :
     ∃ e, step st (.copy s d ow) = (st, .err e) := by
-  sorry
+  have hs : step st (.copy s d ow) = step2 st a a (.copy s d ow) := by
+    simp [step, hc, Op.paths, mapM_two, ha, hb]
+  rw [hs]
+  simp only [step2]
+  split
+  · exact ⟨_, rfl⟩
+  · simp only [if_true]; exact ⟨_, rfl⟩
 
 /-- moving or copying a directory into itself is always rejected -/
 theorem movedir_into_itself_rejected (st : State) (s d : Str) (c : Bool) (a b : List Name)
     (hc : st.closed = false) (ha : validate s = .ok a) (hb : validate d = .ok b)
     (hin : a <+: b) (hne : a ≠ b) :
     step st (.movedir s d c) = (st, .err .IllegalDestination) := by
-  sorry
+  have hs : step st (.movedir s d c) = step2 st a b (.movedir s d c) := by
+    simp [step, hc, Op.paths, mapM_two, ha, hb]
+  rw [hs]
+  simp [step2, hne, (isPrefix_iff a b).2 hin, Ref.fail]
 
 theorem copydir_into_itself_rejected (st : State) (s d : Str) (c : Bool) (a b : List Name)
     (hc : st.closed = false) (ha : validate s = .ok a) (hb : validate d = .ok b) (hin : a <+: b) :
     step st (.copydir s d c) = (st, .err .IllegalDestination) := by
-  sorry
+  have hs : step st (.copydir s d c) = step2 st a b (.copydir s d c) := by
+    simp [step, hc, Op.paths, mapM_two, ha, hb]
+  rw [hs]
+  simp [step2, (isPrefix_iff a b).2 hin, Ref.fail]
 
 /-- after a successful movedir every file of the source subtree is, with its bytes, at the
 corresponding destination path (even when the destination is an ancestor of the source) -/
@@ -87,22 +174,125 @@ theorem movedir_post (st : State) (s d : Str) (c : Bool) (a b r : List Name) (v 
     (hok : (step st (.movedir s d c)).2 = .ok v)
     (hf : st.root.get (a ++ r) = some (.file data)) :
     (step st (.movedir s d c)).1.root.get (b ++ r) = some (.file data) := by
-  sorry
+  have hs := step_two_ok (op := .movedir s d c) rfl ha hb hok
+  rw [hs] at hok ⊢
+  have h2 := eff2 st a b (.movedir s d c)
+  generalize step2 st a b (.movedir s d c) = r' at h2 hok
+  cases h2 with
+  | fail e => cases hok
+  | noop v' h => exact absurd (h ⟨_, _, _, Or.inr (Or.inr (Or.inl rfl))⟩) hne
+  | movedirMerge es ds0 ds m hab hpre ha' hb0 hd hm _ =>
+    simp only [upd]
+    have hes : entsWf es = true := by simpa [Node.wf] using get_wf _ _ _ hwf ha'
+    rw [get_setAt_append _ b r m ds hd]
+    exact mergeEnts_get es ds m r data hes hm (get_rel ha' hf)
+  | movedirNew es ps hab hpre ha' hbn hp _ =>
+    simp only [upd]
+    have hbne : b ≠ [] := by intro e; subst e; simp [Node.get] at hbn
+    have h1 : (st.root.set b (.dir es)).get (b ++ r) = some (.file data) := by
+      rw [get_set_append b r st.root _ ps hbne hp]; exact get_rel ha' hf
+    refine get_del_file _ _ _ _ h1 ?_
+    intro h
+    rcases List.prefix_or_prefix_of_prefix h (List.prefix_append b r) with h | h
+    · rw [(isPrefix_iff a b).2 h] at hpre; cases hpre
+    · obtain ⟨x, hx⟩ := get_prefix_exists h ha'
+      rw [hbn] at hx; cases hx
+  | move _ _ _ _ _ _ _ hop => obtain ⟨_, _, _, h⟩ := hop; cases h
+  | copy _ _ _ _ _ _ _ hop => obtain ⟨_, _, _, h⟩ := hop; cases h
+  | copydirMerge _ _ _ _ _ _ _ hop => obtain ⟨_, _, _, h⟩ := hop; cases h
+  | copydirNew _ _ _ _ _ hop => obtain ⟨_, _, _, h⟩ := hop; cases h
+
+/-- the file (if any) at a component path -/
+def fileAt (t : Node) (q : List Name) : Option Bytes :=
+  match t.get q with
+  | some (.file d) => some d
+  | _ => none
+
+/- ORIGINAL STATEMENT (false as written — second conjunct, "the source file is intact"):
 
 theorem copydir_post (st : State) (s d : Str) (c : Bool) (a b r : List Name) (v : Val) (data : Bytes)
     (ha : validate s = .ok a) (hb : validate d = .ok b) (hwf : st.root.wf = true)
     (hok : (step st (.copydir s d c)).2 = .ok v)
     (hf : st.root.get (a ++ r) = some (.file data)) :
     (step st (.copydir s d c)).1.root.get (b ++ r) = some (.file data) ∧
-    (step st (.copydir s d c)).1.root.get (a ++ r) = some (.file data) := by
-  sorry
+    (step st (.copydir s d c)).1.root.get (a ++ r) = some (.file data)
+
+COUNTEREXAMPLE: the destination is a proper ancestor of the source and the source holds, below an
+entry named like the path from the destination to itself, a file that lands on one of its own
+files.  Tree `a/f = [1]`, `a/a/f = [2]`; `copydir("a", "/")` succeeds, merging the content of `a`
+into the root: `a/a/f` is written to `/a/f`, so afterwards `a/f = [2] ≠ [1]`
+(`copydir_post_counterexample` below).  The second conjunct therefore carries the extra hypothesis
+`¬ b <+: a` (the destination is not an ancestor of the source); the first conjunct is unchanged. -/
+theorem copydir_post_counterexample :
+    let st : State := ⟨.dir [("a".toList, .dir [("f".toList, .file [1]),
+      ("a".toList, .dir [("f".toList, .file [2])])])], false⟩
+    let a := ["a".toList]
+    let r := ["f".toList]
+    validate "a".toList = .ok a ∧ validate "/".toList = .ok [] ∧ st.root.wf = true ∧
+    (step st (.copydir "a".toList "/".toList false)).2 = .ok .unit ∧
+    fileAt st.root (a ++ r) = some [1] ∧
+    fileAt (step st (.copydir "a".toList "/".toList false)).1.root (a ++ r) = some [2] := by
+  decide
+
+theorem copydir_post (st : State) (s d : Str) (c : Bool) (a b r : List Name) (v : Val) (data : Bytes)
+    (ha : validate s = .ok a) (hb : validate d = .ok b) (hwf : st.root.wf = true)
+    (hok : (step st (.copydir s d c)).2 = .ok v)
+    (hf : st.root.get (a ++ r) = some (.file data)) :
+    (step st (.copydir s d c)).1.root.get (b ++ r) = some (.file data) ∧
+    (¬ b <+: a → (step st (.copydir s d c)).1.root.get (a ++ r) = some (.file data)) := by
+  have hs := step_two_ok (op := .copydir s d c) rfl ha hb hok
+  rw [hs] at hok ⊢
+  have hnp : ¬ a <+: b := by
+    intro h
+    simp [step2, (isPrefix_iff a b).2 h, Ref.fail] at hok
+  have h2 := eff2 st a b (.copydir s d c)
+  generalize step2 st a b (.copydir s d c) = r' at h2 hok
+  cases h2 with
+  | fail e => cases hok
+  | noop v' h =>
+    have := h ⟨_, _, _, Or.inr (Or.inr (Or.inr rfl))⟩
+    subst this
+    exact absurd (List.prefix_refl a) hnp
+  | copydirMerge es ds m hpre ha' hd hm _ =>
+    simp only [upd]
+    have hes : entsWf es = true := by simpa [Node.wf] using get_wf _ _ _ hwf ha'
+    refine ⟨?_, fun hba => ?_⟩
+    · rw [get_setAt_append _ b r m ds hd]
+      exact mergeEnts_get es ds m r data hes hm (get_rel ha' hf)
+    · exact get_setAt_file _ _ _ _ _ hf (not_prefix_append hnp hba)
+  | copydirNew es hpre ha' hbn hbl _ =>
+    simp only [upd]
+    have hbne : b ≠ [] := by intro e; subst e; simp [Node.get] at hbn
+    have hba : ¬ b <+: a := by
+      intro h
+      obtain ⟨x, hx⟩ := get_prefix_exists h ha'
+      rw [hbn] at hx; cases hx
+    obtain ⟨es0, h0⟩ := root_dir_of_not_blocked hbne hbl
+    obtain ⟨es', hd⟩ := mkdirs_get [] b st.root es0 h0 hbl (by simp [hbn])
+    simp only [List.nil_append] at hd
+    obtain ⟨ps, hp⟩ := get_parent_dir hbne hd
+    refine ⟨?_, fun _ => ?_⟩
+    · rw [get_set_append b r _ _ ps hbne hp]; exact get_rel ha' hf
+    · exact get_set_file _ _ _ _ _ (mkdirs_file _ _ _ _ _ hf) (not_prefix_append hnp hba)
+  | move _ _ _ _ _ _ _ hop => obtain ⟨_, _, _, h⟩ := hop; cases h
+  | copy _ _ _ _ _ _ _ hop => obtain ⟨_, _, _, h⟩ := hop; cases h
+  | movedirMerge _ _ _ _ _ _ _ _ _ _ hop => obtain ⟨_, _, _, h⟩ := hop; cases h
+  | movedirNew _ _ _ _ _ _ _ hop => obtain ⟨_, _, _, h⟩ := hop; cases h
 
 /-- removetree removes exactly the subtree -/
 theorem removetree_post (st : State) (p : Str) (a r : List Name) (v : Val)
     (ha : validate p = .ok a) (hne : a ≠ []) (hwf : st.root.wf = true)
     (hok : (step st (.removetree p)).2 = .ok v) :
     (step st (.removetree p)).1.root.get (a ++ r) = none := by
-  sorry
+  have hs := step_one_ok (op := .removetree p) rfl ha hok
+  rw [hs] at hok ⊢
+  simp only [step1, hne, if_false] at hok ⊢
+  cases hg : st.root.get a with
+  | none => simp [hg, Ref.fail] at hok
+  | some n =>
+    cases n with
+    | file _ => simp [hg, Ref.fail] at hok
+    | dir es => simp only [upd]; exact get_del_append a r _ hne hwf
 
 example : ¬ touched (.removetree "a".toList) ["b".toList] := by
   intro ⟨a, ha, hu⟩
